@@ -243,6 +243,8 @@ class Engine:
             if a in ("self", "cls") and not is_static and c.cls:
                 v = V("obj", "self", c.cls)
                 st.objcls["self"] = c.cls
+            elif a in c.param_values:
+                v = self.pyval(c.param_values[a])
             elif a in c.params:
                 v = fresh_of_sort(parse_sort(c.params[a]), a, facts)
                 if v.k == "obj":
@@ -632,9 +634,33 @@ class Engine:
         lab = f"if{s.lineno - self.x.lineno}"
         c = self.truth(self.ev(s.test))
         if self.branch(c, lab):
+            self.refine(s.test, True)
             self.exec_block(s.body)
         else:
+            self.refine(s.test, False)
             self.exec_block(s.orelse)
+
+    def refine(self, test, taken: bool):
+        """after `if x is None` / `if x is not None` / `if x` / `if not x`: a local of Optional kind known to be non-None
+        on this branch is re-bound to its value"""
+        neg = False
+        t = test
+        while isinstance(t, ast.UnaryOp) and isinstance(t.op, ast.Not):
+            neg = not neg
+            t = t.operand
+        name, nonnull_when = None, None
+        if isinstance(t, ast.Compare) and len(t.ops) == 1 and isinstance(t.left, ast.Name) \
+                and isinstance(t.comparators[0], ast.Constant) and t.comparators[0].value is None:
+            name = t.left.id
+            nonnull_when = isinstance(t.ops[0], ast.IsNot)
+        elif isinstance(t, ast.Name):
+            name, nonnull_when = t.id, True
+        if name is None or name not in self.st.env:
+            return
+        holds = taken != neg
+        v = self.st.env[name]
+        if v.k == "opt" and holds == nonnull_when:
+            self.st.env[name] = v.t[1]
 
     def st_With(self, s):
         # only context managers declared in the contract's externals as 'with:<dotted>' are accepted
@@ -1649,6 +1675,10 @@ class Engine:
             sf = self.reg.spec_fn(nm) if self.spec_mode else None
             if sf is not None:
                 return sf.apply(self, [self.ev(a) for a in n.args])
+        if d is not None:
+            cd = self.reg.class_by_callname(d)
+            if cd is not None and cd.ctor is not None and d.split(".")[0] not in self.st.env:
+                return self.construct(cd, n)
         if d in ("struct.unpack", "struct.pack") and n.args and isinstance(n.args[0], ast.Constant):
             if d == "struct.unpack":
                 return self.struct_unpack(n.args[0].value, self.ev(n.args[1]))
@@ -1662,9 +1692,30 @@ class Engine:
         # externals by dotted pattern
         if d is not None and d in self.c.externals:
             return self.ext_call(self.c.externals[d], d, n)
+        if isinstance(f, ast.Attribute) and isinstance(f.value, ast.Call) and isinstance(f.value.func, ast.Name) \
+                and f.value.func.id == "super" and "self" in self.st.env and self.st.env["self"].k == "py":
+            return self.py_super_call(self.st.env["self"], f.attr, n)
         if isinstance(f, ast.Attribute):
             return self.method_call(n)
         raise OutOfReach(f"{self.c.key}: call to {d or ast.unparse(f)}")
+
+    def py_super_call(self, recv: V, meth: str, n: ast.Call) -> V:
+        import inspect
+        import os
+        from .extract import REPO
+        cur = getattr(self.x, "qualname", "").split(".")[0]
+        mro = type(recv.t).__mro__
+        start = 0
+        for i, k in enumerate(mro):
+            if k.__name__ == cur:
+                start = i + 1
+        for klass in mro[start:]:
+            if meth in klass.__dict__ and klass.__module__.startswith("hippolyzer"):
+                rel = os.path.relpath(inspect.getsourcefile(klass), REPO)
+                args = [self.ev(a) for a in n.args]
+                kw = {k.arg: self.ev(k.value) for k in n.keywords}
+                return self.inline_method((rel, f"{klass.__qualname__}.{meth}"), recv, args, kw)
+        raise OutOfReach(f"super().{meth}")
 
     def spec_call(self, nm, n) -> Optional[V]:
         if nm == "old":
@@ -1748,6 +1799,15 @@ class Engine:
             finally:
                 self.clause_env_stack.pop()
             return mk_bool(z3.And(ts) if ts else z3.BoolVal(True))
+        md = self.reg.macros.get(nm)
+        if md is not None:
+            params, body = md
+            args = [self.ev(a) for a in n.args]
+            self.clause_env_stack.append(dict(zip(params, args)))
+            try:
+                return self.ev(ast.parse(body, mode="eval").body)
+            finally:
+                self.clause_env_stack.pop()
         pd = self.reg.predicates.get(nm)
         if pd is not None:
             params, body = pd
@@ -1803,6 +1863,8 @@ class Engine:
     def builtin_call(self, nm, n) -> Optional[V]:
         if nm == "len":
             v = self.ev(n.args[0])
+            if v.k == "opt" and self.spec_mode:
+                v = v.t[1]
             if v.k in ("bytes", "str"):
                 return mk_int(z3.Length(v.t))
             if v.k == "ilist":
@@ -1887,6 +1949,11 @@ class Engine:
             v = self.ev(n.args[0])
             cls = self.dotted(n.args[1])
             return self.isinstance_model(v, cls)
+        if nm == "RawBytes":
+            v = self.ev(n.args[0])
+            if v.k != "bytes":
+                raise OutOfReach("RawBytes of non-bytes")
+            return V("bytes", v.t, "RawBytes")
         if nm == "deque":
             ml = None
             for k in n.keywords:
@@ -1901,6 +1968,8 @@ class Engine:
     def isinstance_model(self, v: V, cls: str) -> V:
         table = {"int": ("int", "bool"), "bool": ("bool",), "bytes": ("bytes",), "float": ("float",), "str": ("str",),
                  "tuple": ("tuple",), "list": ("ilist",)}
+        if cls == "RawBytes":
+            return mk_bool(v.k == "bytes" and v.cls == "RawBytes")
         if cls in table and v.k in ("int", "bool", "bytes", "float", "str", "tuple", "ilist", "none"):
             return mk_bool(v.k in table[cls])
         if v.k == "obj":
@@ -2027,6 +2096,10 @@ class Engine:
                 args = [self.ev(a) for a in n.args]
                 kw = {k.arg: self.ev(k.value) for k in n.keywords}
                 return self.inline_method(im, recv, args, kw)
+        if recv.k == "py":
+            r = self.py_method(recv, meth, n)
+            if r is not None:
+                return r
         if recv.k == "bytes":
             if meth == "append":
                 x = self.as_int(self.ev(n.args[0]))
@@ -2083,6 +2156,42 @@ class Engine:
             if d in self.c.externals:
                 return self.ext_call(self.c.externals[d], d, n, recv)
         raise OutOfReach(f"{self.c.key}: method {meth} on {recv.k}{':'+recv.cls if recv.cls else ''}")
+
+    def construct(self, cd, n: ast.Call) -> V:
+        obj = V("obj", fresh_name("new_" + cd.name), cd.name)
+        self.fresh_objs.add(obj.t)
+        args = [self.ev(a) for a in n.args]
+        kw = {k.arg: self.ev(k.value) for k in n.keywords}
+        self.inline_method(cd.ctor, obj, args, kw)
+        return obj
+
+    def py_method(self, recv: V, meth: str, n: ast.Call) -> Optional[V]:
+        """method call on a concrete Python object taken from the live module (e.g. se.U8): struct.Struct is a built-in
+        model; methods of hippolyzer classes are inlined from their source in /repo"""
+        import inspect
+        import struct as _struct
+        o = recv.t
+        if isinstance(o, _struct.Struct):
+            if meth == "pack":
+                return self.struct_pack(o.format, [self.ev(a) for a in n.args])
+            if meth == "unpack":
+                return self.struct_unpack(o.format, self.ev(n.args[0]))
+            return None
+        for klass in type(o).__mro__:
+            if meth in klass.__dict__ and klass.__module__.startswith("hippolyzer"):
+                try:
+                    src = inspect.getsourcefile(klass)
+                except TypeError:
+                    return None
+                from .extract import REPO
+                import os
+                rel = os.path.relpath(src, REPO)
+                if rel.startswith(".."):
+                    raise OutOfReach(f"class {klass.__name__} is not loaded from {REPO}")
+                args = [self.ev(a) for a in n.args]
+                kw = {k.arg: self.ev(k.value) for k in n.keywords}
+                return self.inline_method((rel, f"{klass.__qualname__}.{meth}"), recv, args, kw)
+        return None
 
     def store_back(self, target_node, v: V):
         if isinstance(target_node, ast.Name):
@@ -2235,6 +2344,11 @@ class Engine:
         if mr:
             excs = [mr] if isinstance(mr, str) else list(mr)
             w = self.choose(lab, ["ok"] + excs)
+            if w > 0 and summ.get("raise_only_if"):
+                envr = {f"arg{i}": a for i, a in enumerate(args)}
+                self.assume(self.clause_bool(summ["raise_only_if"], self.st, self.st, envr))
+                if self.quick_prune and not self._feasible():
+                    raise PathAbort()
             if w > 0:
                 for g, inc in summ.get("ghost_on_raise", {}).items():
                     self.st.ghost[g] = self.st.ghost.get(g, z3.IntVal(0)) + inc
